@@ -176,3 +176,32 @@ package tls
 //@   panics when len(keys) == 0
 //@   ensures fresh_keys: fresh(c.sessionTicketKeys) && len(c.sessionTicketKeys) == len(keys)
 //@   loop 0 invariant -1 <= $rangeindex && $rangeindex < len(keys)
+
+// C28 (the other half of GetOutKeystream's claim): for AEAD suites halfConn.encrypt seals every record under the
+// current sequence number as nonce -- directly (TLS 1.3, ChaCha20: no explicit nonce) or through the 8-byte explicit
+// nonce that is a copy of the sequence number (TLS 1.2 AES-GCM). GetOutKeystream seals zeros under out.seq, i.e. under
+// the nonce of the NEXT record. Thin contract: anchors only.
+//@ func (*halfConn).encrypt
+//@   property C28
+//@   unchecked safety pre
+//@   note unchecked: thin contract of an upstream function (anchors only); panic-freedom and callee preconditions are listed assumptions
+//@   requires hc != nil
+//@   requires noalias: arr(record) != arr(hc.seq[0:8]) && arr(record) != arr(hc.scratchBuf[0:13])
+//@   note noalias: the record buffer is neither the sequence-number array nor the scratch buffer of the half connection
+//@   loop 0 invariant 0 <= i
+//@   at before call Seal#0: assert nonce13_is_seq: callres(explicitNonceLen, 0) == 0 ==> len(arg2) == 8 && forall j in 0..8: arg2[j] == hc.seq[j]
+//@   at before call Seal#1: assert nonce12_is_seq: callres(explicitNonceLen, 0) == 0 ==> len(arg2) == 8 && forall j in 0..8: arg2[j] == hc.seq[j]
+//@   note not decided: the TLS 1.2 AES-GCM case (8-byte explicit nonce copied from the sequence number into the tail of the record buffer) -- the copy is followed by appends into the scratch buffer and the clause did not discharge
+//@   at before call incSeq#0: assert seq_advanced_after: arg0 == hc
+
+// sliceForAppend (upstream helper): extends a slice by n bytes in place when the capacity allows, else in a fresh
+// copy; tail is the new n-byte region. Nothing that existed before is written.
+//@ func sliceForAppend
+//@   property C28
+//@   requires n >= 0
+//@   modifies nothing
+//@   ensures lens: len(head) == len(in) + n && len(tail) == n
+//@   ensures tail_in_head: arr(tail) == arr(head) && off(tail) == off(head) + len(in)
+//@   ensures inplace: cap(in) >= len(in) + n ==> arr(head) == arr(in) && off(head) == off(in)
+//@   ensures copied: cap(in) < len(in) + n ==> fresh(head)
+//@   ensures prefix: forall j in 0..len(in): head[j] == in[j]
